@@ -100,6 +100,8 @@ def worker104(inp, outp):
                           "trace": _trace_json(fs.entries) if fs is not None else None}
         rec["t_emu"] = round(time.time() - t0, 2)
     json.dump(out, open(outp, "w"))
+    import shutil
+    shutil.rmtree(tmp, ignore_errors=True)
 
 
 # ======================================================================================================
@@ -119,6 +121,7 @@ HDR_Q = (
     "from guppylang.std.quantum import *\n"
     "from guppylang.std.angles import angle, pi\n"
 )
+HDR_RT = "from guppylang.std.quantum import qubit, x, measure\n"
 
 GI = [0, 1, -1, 2, -3, 7, 63, 64, -64, P53 + 1, -(1 << 62), P63 - 1, -P63]
 GN = [0, 1, 2, 7, 63, 64, P53 + 1, P63 - 1, P63, P64 - 1]
@@ -151,19 +154,31 @@ RT_HELPERS = (
 )
 
 
-def prog_ops_int(rt):
+EXOTIC_INT = ("irotl", "irotr", "imax_s", "imax_u", "imin_s", "imin_u")
+
+
+def prog_ops_int(rt, only=None):
     """1.0.4 only: every arithmetic.int op the interpreter implements, declared directly, on a boundary grid.
     rt=False: literal operands (the HUGR constant folder may evaluate the op before code generation);
     rt=True : operands multiplied by a run-time 1 obtained from a measurement, so that only the generated code can
               compute the result."""
-    bin_ops = ["iadd", "isub", "imul", "iand", "ior", "ixor", "ishl", "ishr", "irotl", "irotr", "ipow",
-               "imax_s", "imax_u", "imin_s", "imin_u", "idiv_s", "imod_s", "idiv_u", "imod_u"]
+    bin_ops = ["iadd", "isub", "imul", "iand", "ior", "ixor", "ishl", "ishr", "ipow", "idiv_s", "imod_s", "idiv_u", "imod_u"]
     un_ops = ["ineg", "inot", "iabs"]
+    if only:
+        bin_ops, un_ops = [only], []
     decls, calls = [RT_HELPERS], []
     if rt:
         calls.append("    one = ONE()")
         calls.append("    uone = nat(one)")
-    A = (lambda v, ty="int": f"({lit(v, ty)} * {'one' if ty == 'int' else 'uone'})") if rt else (lambda v, ty="int": lit(v, ty))
+    def A(v, ty="int"):
+        if not rt:
+            return lit(v, ty)
+        if ty == "int":
+            return f"({lit(v, ty)} * one)"
+        if v < P63:
+            return f"(nat({v}) * uone)"
+        return f"((nat({v >> 1}) * uone) * nat(2) + nat({v & 1}) * uone)"
+
     for op in bin_ops:
         decls.append(f'@hugr_op(int_op("{op}"))\ndef o_{op}(a: int, b: int) -> int: ...\n')
     decls.append('@hugr_op(int_op("idivmod_s"))\ndef o_idivmod_s(a: int, b: int) -> tuple[int, int]: ...\n')
@@ -171,7 +186,7 @@ def prog_ops_int(rt):
     for op in un_ops:
         decls.append(f'@hugr_op(int_op("{op}"))\ndef o_{op}(a: int) -> int: ...\n')
     n = 0
-    for op in bin_ops + ["idivmod_s", "idivmod_u"]:
+    for op in bin_ops + ([] if only else ["idivmod_s", "idivmod_u"]):
         for a in GI:
             for b in GI:
                 if "div" in op or "mod" in op:
@@ -191,6 +206,8 @@ def prog_ops_int(rt):
     for op in un_ops:
         for a in GI:
             calls.append(f'    result("{op}:{a}", o_{op}({A(a)}))')
+    if only:
+        return HDR104_OPS + HDR_RT + "\n" + "\n".join(decls) + "\n@guppy\ndef main() -> None:\n" + "\n".join(calls) + "\n"
     # comparisons and conversions through the standard operators
     for sym, nm in (("<", "lt"), ("<=", "le"), (">", "gt"), (">=", "ge"), ("==", "eq"), ("!=", "ne")):
         decls.append(f"@guppy\ndef c_{nm}_s(a: int, b: int) -> bool:\n    return a {sym} b\n")
@@ -218,23 +235,42 @@ def prog_ops_int(rt):
             calls.append(f'    result("int_of_nat:{a}", i_n({A(a, "nat")}))')
     calls.append('    result("int_of_bool:1", i_b(True))')
     calls.append('    result("int_of_bool:0", i_b(False))')
-    return HDR104_OPS + HDR_Q + "\n" + "\n".join(decls) + "\n@guppy\ndef main() -> None:\n" + "\n".join(calls) + "\n"
+    return HDR104_OPS + HDR_RT + "\n" + "\n".join(decls) + "\n@guppy\ndef main() -> None:\n" + "\n".join(calls) + "\n"
 
 
 GF = [0.0, -0.0, 1.0, -1.0, 0.5, -0.5, 1.5, -1.5, 2.5, -2.5, 3.5, 0.49999999999999994, 2.4999, 0.1, -0.3, 7.0, -7.5, 1e10,
       float(P53), float(P53) + 2.0, 4503599627370497.0, 4503599627370495.5, 1e308, -1e308, 5e-324, math.inf, -math.inf, math.nan]
 
 
-def prog_ops_float(rt, un_ops=("fneg", "fabs"), with_bin=True):
+def prog_ops_float(rt, un_ops=("fneg",), with_bin=True):
     bin_ops = ["fadd", "fsub", "fmul", "fdiv", "fpow"] if with_bin else []
     decls = [FLOAT_HELPERS, RT_HELPERS]
     calls = []
     if rt:
-        calls.append("    fone = float(ONE())")
-    A = (lambda v: f"({lit(v, 'float')} * fone)") if rt else (lambda v: lit(v, "float"))
-    for op in list(bin_ops) + list(un_ops):
-        args = "a: float, b: float" if op in bin_ops else "a: float"
-        decls.append(f'@hugr_op(float_op("{op}"))\ndef o_{op}({args}) -> float: ...\n')
+        # non-finite values and -0.0 are COMPUTED at run time from the measured 1: the 1.0.4 optimiser turns folded float
+        # constants into `ConstRotation` + `to_halfturns`, which panics on non-finite values
+        calls += ["    fone = float(ONE())", "    inf = (1e308 * fone) * 10.0", "    nan = inf - inf", "    nzero = (0.0 - fone) * 0.0"]
+
+    def A(v):
+        if not rt:
+            return lit(v, "float")
+        if v != v:
+            return "nan"
+        if v in (math.inf, -math.inf):
+            return "inf" if v > 0 else "(-inf)"
+        if v == 0 and math.copysign(1, v) < 0:
+            return "nzero"
+        return f"({v!r} * fone)"
+
+    # binary ops through the standard operators (a directly declared `fadd` is rewritten by the 1.0.4 optimiser into
+    # rotation arithmetic — from_halfturns_unchecked / radd / to_halfturns — which panics on non-finite operands)
+    for op, sym in zip(bin_ops, ("+", "-", "*", "/", "**"), strict=False):
+        decls.append(f"@guppy\ndef o_{op}(a: float, b: float) -> float:\n    return a {sym} b\n")
+    for op in un_ops:
+        if op == "fneg":
+            decls.append("@guppy\ndef o_fneg(a: float) -> float:\n    return -a\n")
+        else:
+            decls.append(f'@hugr_op(float_op("{op}"))\ndef o_{op}(a: float) -> float: ...\n')
     if with_bin:
         for sym, nm in (("<", "flt"), ("<=", "fle"), (">", "fgt"), (">=", "fge"), ("==", "feq"), ("!=", "fne")):
             decls.append(f"@guppy\ndef c_{nm}(a: float, b: float) -> bool:\n    return a {sym} b\n")
@@ -242,6 +278,10 @@ def prog_ops_float(rt, un_ops=("fneg", "fabs"), with_bin=True):
         for i, a in enumerate(GB):
             for j, b in enumerate(GB):
                 for op in bin_ops:
+                    if op in ("fadd", "fsub") and not (math.isfinite(a) and math.isfinite(b)):
+                        # the 1.0.4 optimiser rewrites float addition of run-time values into rotation arithmetic
+                        # (from_halfturns_unchecked / radd / to_halfturns), which panics on non-finite operands
+                        continue
                     calls.append(f'    result("{op}:{i}:{j}", o_{op}({A(a)}, {A(b)}))')
                 for nm in ("flt", "fle", "fgt", "fge", "feq", "fne"):
                     calls.append(f'    result("{nm}:{i}:{j}", c_{nm}({A(a)}, {A(b)}))')
@@ -255,10 +295,10 @@ def prog_ops_float(rt, un_ops=("fneg", "fabs"), with_bin=True):
         for i, a in enumerate([0.0, -0.0, 0.5, -0.5, 0.99, -0.99, 1.5, -1.5, 2.5, 1e10, -1e10, float(P53), 9.2e18, -9.2e18,
                                9223372036854774784.0, -9223372036854775808.0]):
             calls.append(f'    result("trunc_s:{i}", t_s({A(a)}))')
-        for i, a in enumerate([0.0, -0.0, 0.5, -0.5, -0.99, 0.99, 1.5, 2.5, 1e10, float(P53), 9.2e18, 9223372036854775808.0,
+        for i, a in enumerate([0.0, -0.0, 0.5, 0.99, 1.5, 2.5, 1e10, float(P53), 9.2e18, 9223372036854775808.0,
                                18446744073709549568.0]):
             calls.append(f'    result("trunc_u:{i}", t_u({A(a)}))')
-    return HDR104_OPS + HDR_Q + "\n" + "\n".join(decls) + "\n@guppy\ndef main() -> None:\n" + "\n".join(calls) + "\n"
+    return HDR104_OPS + HDR_RT + "\n" + "\n".join(decls) + "\n@guppy\ndef main() -> None:\n" + "\n".join(calls) + "\n"
 
 
 def _single(name, body, hdr=HDR104, pre=""):
@@ -268,7 +308,7 @@ def _single(name, body, hdr=HDR104, pre=""):
 def progs_ops_panics():
     """one run per panicking op (the emulator stops at the first panic); operands are run-time values"""
     out = []
-    H = HDR104_OPS + HDR_Q
+    H = HDR104_OPS + HDR_RT
     mk = lambda nm, decl, call: out.append({  # noqa: E731
         "name": "ops:panic:" + nm, "common": False, "n_qubits": 2,
         "src104": H + "\n" + FLOAT_HELPERS + RT_HELPERS + decl + "\n@guppy\ndef main() -> None:\n    one = ONE()\n    fone = float(one)\n"
@@ -277,10 +317,11 @@ def progs_ops_panics():
     for op in ("idiv_s", "imod_s", "idiv_u", "imod_u"):
         mk(op + "_zero", f'@hugr_op(int_op("{op}"))\ndef o(a: int, b: int) -> int: ...\n', "o(7 * one, one - one)")
     mk("is_to_u_neg", "@guppy\ndef o(a: int) -> nat:\n    return nat(a)\n", "o(-1 * one)")
-    mk("iu_to_s_big", "@guppy\ndef o(a: nat) -> int:\n    return int(a)\n", "o(9223372036854775808 * uone)")
+    mk("iu_to_s_big", "@guppy\ndef o(a: nat) -> int:\n    return int(a)\n", "o(nat(9223372036854775807) * uone + uone)")
     mk("trunc_s_big", "@guppy\ndef o(a: float) -> int:\n    return int(a)\n", "o(9223372036854775808.0 * fone)")
     mk("trunc_s_nan", "@guppy\ndef o(a: float) -> int:\n    return int(a)\n", "o((INF() - INF()) * fone)")
     mk("trunc_u_neg", "@guppy\ndef o(a: float) -> nat:\n    return nat(a)\n", "o(-1.0 * fone)")
+    mk("trunc_u_negfrac", "@guppy\ndef o(a: float) -> nat:\n    return nat(a)\n", "o(-0.5 * fone)")
     mk("trunc_u_big", "@guppy\ndef o(a: float) -> nat:\n    return nat(a)\n", "o(18446744073709551616.0 * fone)")
     mk("trunc_u_inf", "@guppy\ndef o(a: float) -> nat:\n    return nat(a)\n", "o(INF() * fone)")
     mk("ipow_neg", "@guppy\ndef o(a: int, b: int) -> int:\n    return a ** b\n", "o(2 * one, -1 * one)")
@@ -618,8 +659,22 @@ COMMON["num:std"] = None  # filled by gen_num_std()
 
 
 def gen_num_std():
-    """operators through the standard library of BOTH versions, on boundary operands (the dunder → op maps agree)"""
-    decls, calls = [], []
+    """operators through the standard library of BOTH versions, on boundary operands (the dunder → op maps agree).
+    Operands are multiplied by a run-time 1 (a measured |1>): with literal operands the 1.0.4 tool chain evaluates parts of
+    the program at compile time, and that evaluation is not faithful (imod_s at -2^63, fdiv off by an ulp, -0.0 merged with
+    0.0); the generated code is what is compared here."""
+    decls = ["@guppy\ndef ONE() -> int:\n    q = qubit()\n    x(q)\n    return int(bool(measure(q)))\n"]
+    calls = ["    one = ONE()", "    uone = nat(one)", "    fone = float(one)"]
+
+    def A(v, ty):
+        if ty == "int":
+            return f"({lit(v, ty)} * one)"
+        if ty == "float":
+            return f"({v!r} * fone)"
+        if v < P63:
+            return f"(nat({v}) * uone)"
+        return f"((nat({v >> 1}) * uone) * nat(2) + nat({v & 1}) * uone)"
+
     ops_i = [("+", "add"), ("-", "sub"), ("*", "mul"), ("//", "fdiv"), ("%", "mod"), ("&", "and"), ("|", "or"), ("^", "xor"),
              ("<<", "shl"), (">>", "shr"), ("**", "pow")]
     for ty, G in (("int", GI), ("nat", GN)):
@@ -633,14 +688,12 @@ def gen_num_std():
                         continue
                     if sym == "**" and not 0 <= b <= 70:
                         continue
-                    if sym == "%" and ty == "int" and a == -P63:
-                        continue  # known 1.0.4 runtime deviation (imod_s at n = -2^63), see notes/C04.md
-                    calls.append(f'    result("{ty}_{nm}:{a}:{b}", {ty}_{nm}({lit(a, ty)}, {lit(b, ty)}))')
+                    calls.append(f'    result("{ty}_{nm}:{a}:{b}", {ty}_{nm}({A(a, ty)}, {A(b, ty)}))')
         for sym, nm in (("<", "lt"), ("<=", "le"), (">", "gt"), (">=", "ge"), ("==", "eq"), ("!=", "ne")):
             decls.append(f"@guppy\ndef {ty}_{nm}(a: {ty}, b: {ty}) -> bool:\n    return a {sym} b\n")
             for a in G[::2]:
                 for b in G:
-                    calls.append(f'    result("{ty}_{nm}:{a}:{b}", {ty}_{nm}({lit(a, ty)}, {lit(b, ty)}))')
+                    calls.append(f'    result("{ty}_{nm}:{a}:{b}", {ty}_{nm}({A(a, ty)}, {A(b, ty)}))')
     decls.append("@guppy\ndef int_neg(a: int) -> int:\n    return -a\n")
     decls.append("@guppy\ndef int_inv(a: int) -> int:\n    return ~a\n")
     decls.append("@guppy\ndef int_abs(a: int) -> int:\n    return abs(a)\n")
@@ -648,9 +701,9 @@ def gen_num_std():
     decls.append("@guppy\ndef int_flt(a: int) -> float:\n    return float(a)\n")
     for a in GI:
         for f in ("neg", "inv", "abs", "flt"):
-            calls.append(f'    result("int_{f}:{a}", int_{f}({lit(a, "int")}))')
+            calls.append(f'    result("int_{f}:{a}", int_{f}({A(a, "int")}))')
         for b in (1, -3, 7, P53 + 1):
-            calls.append(f'    result("int_tdiv:{a}:{b}", int_tdiv({lit(a, "int")}, {b}))')
+            calls.append(f'    result("int_tdiv:{a}:{b}", int_tdiv({A(a, "int")}, {A(b, "int")}))')
     fl = [0.0, 1.0, -1.0, 0.5, -2.5, 3.0, 7.25, 1e10, 1e308]
     for sym, nm in (("+", "add"), ("-", "sub"), ("*", "mul"), ("/", "div"), ("**", "pow")):
         decls.append(f"@guppy\ndef f_{nm}(a: float, b: float) -> float:\n    return a {sym} b\n")
@@ -658,23 +711,24 @@ def gen_num_std():
             for b in fl:
                 if sym in ("/", "//", "%") and b == 0:
                     continue
-                calls.append(f'    result("f_{nm}:{a}:{b}", f_{nm}({a!r}, {b!r}))')
+                calls.append(f'    result("f_{nm}:{a}:{b}", f_{nm}({A(a, "float")}, {A(b, "float")}))')
     for sym, nm in (("<", "lt"), ("==", "eq"), (">=", "ge")):
         decls.append(f"@guppy\ndef f_{nm}(a: float, b: float) -> bool:\n    return a {sym} b\n")
         for a in fl:
             for b in fl:
-                calls.append(f'    result("f_{nm}:{a}:{b}", f_{nm}({a!r}, {b!r}))')
+                calls.append(f'    result("f_{nm}:{a}:{b}", f_{nm}({A(a, "float")}, {A(b, "float")}))')
     decls.append("@guppy\ndef mixed(a: int, b: float) -> float:\n    return a * b + a\n")
-    calls.append('    result("mixed", mixed(3, 0.5))')
+    calls.append('    result("mixed", mixed(3 * one, 0.5 * fone))')
     for nm, sym in (("and", "&"), ("or", "|"), ("xor", "^"), ("eq", "=="), ("ne", "!=")):
         decls.append(f"@guppy\ndef b_{nm}(a: bool, b: bool) -> bool:\n    return a {sym} b\n")
         for a in (True, False):
             for b in (True, False):
-                calls.append(f'    result("b_{nm}:{a}:{b}", b_{nm}({a}, {b}))')
+                calls.append(f'    result("b_{nm}:{a}:{b}", b_{nm}(one == {int(a)}, one == {int(b)}))')
     decls.append("@guppy\ndef b_not(a: bool) -> bool:\n    return not a\n")
-    calls.append('    result("b_not:T", b_not(True))')
-    calls.append('    result("b_not:F", b_not(False))')
-    return "\n".join(decls) + "\n@guppy\ndef main() -> None:\n" + "\n".join(calls) + "\n"
+    calls.append('    result("b_not:T", b_not(one == 1))')
+    calls.append('    result("b_not:F", b_not(one == 0))')
+    return ("from guppylang.std.quantum import qubit, x, measure\n\n" + "\n".join(decls)
+            + "\n@guppy\ndef main() -> None:\n" + "\n".join(calls) + "\n")
 
 
 COMMON["num:std"] = gen_num_std()
@@ -879,10 +933,12 @@ def all_programs():
     progs = [
         {"name": "ops:int:const", "src104": prog_ops_int(False), "common": False},
         {"name": "ops:int:runtime", "src104": prog_ops_int(True), "common": False, "n_qubits": 2},
-        {"name": "ops:float:const", "src104": prog_ops_float(False), "common": False},
         {"name": "ops:float:runtime", "src104": prog_ops_float(True), "common": False, "n_qubits": 2},
     ]
-    for op in ("ffloor", "fceil", "fround", "froundeven"):
+    for op in EXOTIC_INT:
+        progs.append({"name": f"ops:int:{op}:const", "src104": prog_ops_int(False, op), "common": False})
+        progs.append({"name": f"ops:int:{op}:runtime", "src104": prog_ops_int(True, op), "common": False, "n_qubits": 2})
+    for op in ("fabs", "ffloor", "fceil", "fround", "froundeven"):
         progs.append({"name": f"ops:float:{op}:const", "src104": prog_ops_float(False, (op,), False), "common": False})
         progs.append({"name": f"ops:float:{op}:runtime", "src104": prog_ops_float(True, (op,), False), "common": False,
                       "n_qubits": 2})
@@ -890,7 +946,7 @@ def all_programs():
     for name, body in COMMON.items():
         hdr = HDR104 + (HDR_Q if name.startswith("q:") else "")
         progs.append({"name": name, "src104": hdr + body, "body": body, "common": True,
-                      "n_qubits": 4 if name.startswith("q:") else 1})
+                      "n_qubits": 4 if name.startswith("q:") else 2})
     return progs
 
 
@@ -951,6 +1007,7 @@ KNOWN_RUNTIME_DEVIATIONS = {
     # tag prefix -> reason; the interpreter follows the op DESCRIPTION, the 1.0.4 runtime's generated code deviates
     "imod_s:-9223372036854775808:": "1.0.4 runtime: imod_s with n = -2^63 returns a remainder outside [0,m) (notes/C04.md)",
     "idivmod_s:-9223372036854775808:": "same defect through idivmod_s (remainder output)",
+    "fne:NAN": "1.0.4 runtime: fne is lowered to an ORDERED comparison (fcmp one): x != NaN is False; IEEE-754 / Python: True",
 }
 
 # panic texts produced INSIDE an op by the runtime (the interpreter has its own wording for these)
@@ -991,7 +1048,10 @@ def _match(emu, ir):
     known, unexplained = [], []
     for i, x, y in _cmp_traces(et, it):
         tag = (x or y)[0]
-        why = next((w for k, w in KNOWN_RUNTIME_DEVIATIONS.items() if tag.startswith(k)), None)
+        ktag = tag
+        if tag.startswith("fne:") and "13" in tag.split(":")[1:]:  # operand index 13 of the float grid is NaN
+            ktag = "fne:NAN"
+        why = next((w for k, w in KNOWN_RUNTIME_DEVIATIONS.items() if ktag.startswith(k)), None)
         if why and x and y:
             known.append({"tag": tag, "emulator": x[1], "interp": y[1], "why": why})
         else:
@@ -1019,6 +1079,8 @@ def run_emulator_validation(only=None, verbose=False):
     if not os.path.exists(outp):
         return {"infra_error": (p.stderr or p.stdout)[-2000:]}, False
     got = json.load(open(outp))
+    import shutil
+    shutil.rmtree(tmp, ignore_errors=True)
     report = {"programs": {}, "seconds_worker": round(time.time() - t0, 1)}
     ok_all = True
     n_results = 0
@@ -1117,6 +1179,15 @@ class _GArr(list):
         return _GArr(self)
 
 
+class _FArr(_GArr):
+    """frozenarray (comptime list)"""
+
+    def _ix(self, i):
+        if not 0 <= i < len(self):
+            raise _PyPanic("Frozenarray index out of bounds")
+        return i
+
+
 class _Opt:
     def __init__(self, has, v=None):
         self.has, self.v = has, v
@@ -1148,6 +1219,14 @@ def _py_env(trace):
         def struct(c):
             return dataclasses.dataclass(c)
 
+        @staticmethod
+        def type_var(*a, **k):
+            return None
+
+        @staticmethod
+        def nat_var(*a, **k):
+            return None
+
     def array(*a):
         if len(a) == 1 and hasattr(a[0], "__next__"):
             return _GArr(list(a[0]))
@@ -1162,7 +1241,10 @@ def _py_env(trace):
     def result(tag, v):
         trace.append((tag, list(v) if isinstance(v, list) else v))
 
-    env = {"guppy": _G(), "array": array, "panic": panic, "exit": exit, "result": result, "nat": int,
+    def comptime(v):
+        return _FArr(v) if isinstance(v, list) else v
+
+    env = {"guppy": _G(), "comptime": comptime, "array": array, "panic": panic, "exit": exit, "result": result, "nat": int,
            "some": lambda v: _Opt(True, v), "nothing": lambda: _Opt(False), "owned": None, "Option": None}
     from collections.abc import Callable
 
@@ -1489,6 +1571,17 @@ def f(xs: array[int, 4]) -> int:
     T.append(("nested_def", "@guppy\ndef f(a: int, b: int) -> int:\n    def h(x: int) -> int:\n        return x * x + 1\n    return h(a) - h(b)\n", "f", pairs, False))
     T.append(("depth_chain", "@guppy\ndef a1(x: int) -> int:\n    return x + 1\n\n@guppy\ndef a2(x: int) -> int:\n    return a1(x) * 2\n\n@guppy\ndef a3(x: int) -> int:\n    return a2(x) - a1(x)\n\n@guppy\ndef f(x: int) -> int:\n    return a3(a2(a1(x)))\n",
               "f", small, False))
+
+    # ---- F6b generics, frozenarrays (static_array), comptime values ------------------------------------------------------
+    T.append(("generic_id", 'T = guppy.type_var("T")\n\n@guppy\ndef ident(x: T) -> T:\n    return x\n\n@guppy\ndef f(a: int, b: int) -> tuple[int, bool]:\n'
+              '    return ident(a) + ident(b), ident(a > b)\n', "f", pairs, False))
+    T.append(("generic_pair", 'A = guppy.type_var("A")\nB = guppy.type_var("B")\n\n@guppy\ndef sw(t: tuple[A, B]) -> tuple[B, A]:\n    x, y = t\n    return y, x\n\n'
+              '@guppy\ndef f(a: int, b: int) -> tuple[bool, int]:\n    return sw((a * 2, a < b))\n', "f", pairs, False))
+    T.append(("generic_len", 'n = guppy.nat_var("n")\n\n@guppy\ndef sm(xs: array[int, n]) -> int:\n    s = 0\n    for i in range(len(xs)):\n        s += xs[i] * (i + 1)\n    return s\n\n'
+              '@guppy\ndef f(a: int, b: int) -> int:\n    return sm(array(a, b, 3)) * 100 + sm(array(b, a))\n', "f", pairs, False))
+    T.append(("frozen_get", "@guppy\ndef f(i: int) -> int:\n    xs = comptime([10, 20, 30, 40])\n    return xs[i] + 1\n", "f", idx, False))
+    T.append(("frozen_loop", "@guppy\ndef f(k: int) -> int:\n    xs = comptime([3, 1, 4, 1, 5])\n    s = 0\n    for x in xs:\n        s = s * k + x\n    return s\n", "f", small[:6], False))
+    T.append(("comptime_vals", "@guppy\ndef f(a: int) -> tuple[int, float, bool]:\n    return a + comptime(2 ** 40), comptime(1.5 * 3), comptime(3 > 2)\n", "f", small, False))
 
     # ---- F7 panic / exit ------------------------------------------------------------------------------------------------------
     T.append(("panic_branch", "@guppy\ndef f(a: int) -> int:\n    result(\"in\", a)\n    if a > 4:\n        panic(\"too big\")\n    result(\"ok\", a)\n    return a\n", "f", small, False))
